@@ -18,26 +18,33 @@ from harness import c03_wf as W
 ID = "C03"
 
 RULE = ("one case = one source text (or one 2-4 file project) lowered by the real frontend. Texts: every file of a "
-        "supported extension under <repo>/tests (c go java javascript php python typescript), valid programs composed "
-        "by Hypothesis from per-language statement/declaration templates (unique 9xxxx literals give the source order), "
-        "and Hypothesis-chosen byte-level mutants of both (delete range, insert token from a per-language dictionary, "
-        "transpose, truncate, duplicate/delete/swap lines, splice two files, replace byte; thorough tier adds raw byte "
-        "insertion and token repetition and applies more operators per case). Projects: 2-4 such files of mixed "
-        "languages, (a) lowered unit after unit with the start ids threaded through LangAnalysis.adjust_node_id, "
-        "(b) run through the real `lang` sub-command and read back from frontend/gir.bundle*. "
-        "Non-trivial = the text differs from every corpus file AND lowering produced >= 1 GIR row or an exception; "
-        "distinct by hash of (language, text).")
+        "supported extension under <repo>/tests (c go java javascript php python typescript; .ets/.cjs/.mjs/.h as the "
+        "nearest language), valid programs composed from ~900 per-language statement/declaration templates (every template "
+        "is checked against the tree-sitter grammar to be error free; unique 9xxxx literals give the source order), and "
+        "byte-level mutants of corpus files (<= 12 kB) and of generated programs: delete range, insert token from a "
+        "per-language dictionary, transpose, truncate, duplicate/delete/swap lines, splice two files, replace byte "
+        "(quick: 1-2 operators per case; thorough: 1-5 and additionally raw byte insertion and token repetition). "
+        "All choices are made by a random.Random that Hypothesis seeds per case (st.randoms), i.e. a pure function of "
+        "VERIF_SEED. Projects: 2-4 such files of mixed languages, (a) lowered unit after unit with the start ids "
+        "threaded through the real LangAnalysis.adjust_node_id, (b) run through the real `lang` sub-command and read "
+        "back from frontend/gir.bundle*. Thorough tier adds one atheris (libFuzzer) campaign of 60000 runs per language. "
+        "Non-trivial = the text differs from every corpus file AND lowering produced >= 1 GIR row or an exception "
+        "(projects: >= 2 units with GIR); distinct by hash of (language, text).")
 
 ASSUMPTIONS = [
-    "cpp.so and csharp.so are empty on this image: C++ and C# are out of scope; ruby/llvm/smali/rust are not claimed by the property's seven-language corpus",
+    "cpp.so and csharp.so are empty on this image: C++ and C# are out of scope; ruby/llvm/smali/rust are not among the seven languages of the property's corpus",
     "default (non-strict) parse mode, default event handlers only, no --incremental",
-    "a SystemExit raised by util.error_and_quit / Parser.syntax_error is a deliberate rejection (counted), not a crash",
+    "a SystemExit raised by util.error_and_quit / Parser.syntax_error is a deliberate rejection (counted) — except on a text that tree-sitter parses without any ERROR/MISSING node, where it is reported: it ends the lang phase for every other file of the project as well",
+    "'no GIR for that file' is a valid outcome for any text (the property says so); e.g. c_parser drops every C file whose first bytes are `//` (is_comment looks at the node text) — observed, not a C03 violation",
     "clause 3 converse (attribute -> block) is checked only for attribute names that are bodies in every producer and consumer: " + " ".join(sorted(W.ALWAYS_BODY_ATTRS)),
-    "class-initialiser blocks = blocks of class_decl interface_decl enum_decl record_decl struct_decl annotation_type_decl union_decl",
-    "the source-order clause is checked on generated programs only (order of the 9xxxx literals among the direct children of %unit_init); for every input the order of %unit_init's rows is compared with the flattened table recorded just before add_main_func ran",
+    "class-initialiser blocks = blocks of " + " ".join(sorted(W.CLASS_LIKE)),
+    "the source-order clause is checked on generated programs only (order of the 9xxxx literals among the direct children of %unit_init); for every input the rows of %unit_init are compared, in order, with the flattened table recorded just before add_main_func ran (a recorder registered in front of it)",
     "texts that are not valid UTF-8 are read by lian with errors=strict, fail to load and yield no GIR (valid outcome)",
     "recursion limit during lowering is pinned to (current depth + 950) so that Hypothesis runs and replays agree",
-    "a case running longer than the per-case alarm (quick 30 s, thorough 180 s) is discarded and counted, termination is C13's subject",
+    "a case running longer than the per-case alarm (quick 30 s, thorough 180 s, corpus files in the thorough tier 900 s) is discarded and counted; termination is C13's subject",
+    "an attribute value that is a container (tuple/list/dict) is reported (clause '0:attribute-value-not-storable'): the loader cannot write a table with such a row and leaves frontend/gir.bundle* empty for the whole project (reproduced through the CLI)",
+    "module state that lian keeps between files (the mutable default lists of common_parser.Parser.parse) is emptied before every case, never inside a multi-file case",
+    "crash signatures: (language, exception type, innermost lian function that is not a generic common_parser helper), kept apart for texts with and without tree-sitter syntax errors; known_findings.d/C03.json lists every bucket met in the saturation runs and, per frontend where the class was observed, one wildcard entry for further handlers of the SAME class (texts with syntax errors only)",
 ]
 
 MAX_REPORTED = 10
@@ -94,11 +101,24 @@ def _alarm(signum, frame):
     raise _Timeout()
 
 
-def lower_one(data, lang, start_id=120, module_id=101, fname=None, timeout=30):
+def reset_shared_parser_state():
+    """common_parser.Parser.parse(self, node, statements=[], replacement=[]) has mutable default arguments: what
+    handlers append to them survives the file, the project and — in a harness process — the case.  Every case
+    starts from the state of a fresh process (empty lists), so that a case is reproducible on its own; inside a
+    multi-file case the lists are left alone, exactly as inside one `lian` run."""
+    from lian.lang import common_parser
+    for d in (common_parser.Parser.parse.__defaults__ or ()):
+        if isinstance(d, list):
+            del d[:]
+
+
+def lower_one(data, lang, start_id=120, module_id=101, fname=None, timeout=30, reset=True):
     """Lower bytes `data`.  Returns dict(outcome, next_id, rows, pre, exc)."""
     ctx = _setup()
     lianrun = ctx["lianrun"]
     ctx["pre"] = None
+    if reset:
+        reset_shared_parser_state()
     old_limit = sys.getrecursionlimit()
     use_alarm = timeout is not None        # (the atheris driver leaves SIGALRM to libFuzzer)
     if use_alarm:
@@ -199,9 +219,7 @@ def check_single(data, lang, top_markers=None, start_id=120, timeout=30, lo_hi=T
     if r["outcome"] != "rows":
         return ds, info
     rows = r["rows"]
-    ns = W.nonscalar_attributes(rows)
-    if ns:
-        info["nonscalar"] = sorted(set(ns))
+    ds.extend(W.check_storable(rows, lang))
     hi = ctx["adjust"](r["next_id"]) if lo_hi else None
     ds.extend(W.check_unit(rows, lang, start_id if lo_hi else None, hi))
     ds.extend(W.check_main_func(r["pre"], rows, lang))
@@ -260,9 +278,9 @@ def check_threaded(units, timeout=30):
     start = adjust(max(module_ids))
     intervals = []
     all_ids = {}
-    for (lang, fname, data), mid in zip(units, module_ids):
+    for k, ((lang, fname, data), mid) in enumerate(zip(units, module_ids)):
         fname = os.path.basename(fname)
-        r = lower_one(data, lang, start_id=start, module_id=mid, fname=fname, timeout=timeout)
+        r = lower_one(data, lang, start_id=start, module_id=mid, fname=fname, timeout=timeout, reset=(k == 0))
         info["outcomes"].append(r["outcome"])
         if r["outcome"] == "crash":
             d = _crash_discrepancy(data, lang, r["exc"])
@@ -278,6 +296,7 @@ def check_threaded(units, timeout=30):
             info["units_with_gir"] += 1
             ds.extend(W.check_unit(r["rows"], lang, start, nxt))
             ds.extend(W.check_main_func(r["pre"], r["rows"], lang))
+            ds.extend(W.check_storable(r["rows"], lang))
             ids = [x["stmt_id"] for x in r["rows"] if isinstance(x, dict) and W.is_int(x.get("stmt_id"))]
             if ids:
                 intervals.append((min(ids), max(ids), fname, lang))
@@ -361,6 +380,7 @@ def check_project(units, timeout=120):
     signal.setitimer(signal.ITIMER_REAL, timeout, 2.0)
     old_limit = sys.getrecursionlimit()
     res = None
+    reset_shared_parser_state()
     try:
         try:
             sys.setrecursionlimit(_depth() + 950 + 20)
@@ -398,7 +418,19 @@ def check_project(units, timeout=120):
         import pandas as pd
         frames = []
         for p in sorted(glob.glob(os.path.join(res.workspace, "frontend", "gir.bundle*"))):
-            frames.append(pd.read_feather(p))
+            try:
+                frames.append(pd.read_feather(p))
+            except Exception as e:
+                # the sub-command ended normally, but what it left at the observation point is no table
+                msg = [l for l in (res.stdout or "").splitlines() if "onversion failed" in l or "Could not convert" in l]
+                ds.append(((ID, "struct", "project", "0:gir-bundle-unreadable", "lang-cmd"),
+                           "lang sub-command ended normally but %s (%d bytes) cannot be read back: %s; lian printed: %.200s" % (
+                               os.path.basename(p), os.path.getsize(p), type(e).__name__, "; ".join(msg[-2:]))))
+        if ds:
+            # say which unit carries the unstorable value, with the same signature as the in-memory flavour
+            d2, _ = check_threaded([(l, nm, d) for l, nm, d in units], timeout=timeout)
+            ds.extend(x for x in d2 if x[0][3].startswith("0:"))
+            return _dedup(ds), info
         unit_lang = {}
         for u in res.loader.get_all_unit_info():
             unit_lang[int(u.module_id)] = (str(u.lang), str(u.original_path))
@@ -475,8 +507,6 @@ def _record(col, ds, info, case, nontrivial_key=None, kind=""):
     col.case()
     if info.get("harness_error"):
         col.error(info["harness_error"])
-    for name, tname in info.get("nonscalar", ()):
-        col.extra["observation: attribute value is a %s: %s" % (tname, name)] += 1
     out = info.get("outcome")
     if out:
         col.label("outcome:%s%s:%s" % (kind, case.get("lang", ""), out))
@@ -528,6 +558,21 @@ def _settings(hypothesis, settings, HealthCheck, n):
                     suppress_health_check=list(HealthCheck), phases=[hypothesis.Phase.generate])
 
 
+def _guarded(col, fn, *a, **k):
+    """Run one check; an exception of the harness itself must not reach Hypothesis (it would be retried and
+    reported as flaky): it becomes a harness error of the run."""
+    import traceback
+    try:
+        return fn(*a, **k)
+    except KeyboardInterrupt:
+        raise
+    except BaseException as e:
+        if type(e).__module__.startswith("hypothesis"):
+            raise
+        col.error("check raised %s: %s\n%s" % (type(e).__name__, str(e)[:300], "".join(traceback.format_tb(e.__traceback__)[-4:])))
+        return [], {"outcome": "harness-error", "rows": 0}
+
+
 def _uniform(data, st):
     """(draw, strategies) that choose uniformly, driven by a random.Random which Hypothesis seeds."""
     rnd = data.draw(st.randoms(use_true_random=True))
@@ -535,7 +580,8 @@ def _uniform(data, st):
 
 
 def corpus_shard(arg):
-    lang, part, nparts, tier = arg
+    lang, part, nparts, tier = arg[:4]
+    want_sample = len(arg) > 4 and arg[4]
     col = Collector()
     files = G.corpus()[lang]
     timeout = 30 if tier == "quick" else 900      # one corpus file needs a minute even on an idle core
@@ -545,18 +591,19 @@ def corpus_shard(arg):
         if tier == "quick" and (len(data) > G.MAX_CORPUS_BYTES_QUICK or rel in G.SLOW_CORPUS_FILES):
             col.discards["slow corpus file (thorough tier only): %s" % rel] += 1
             continue
-        ds, info = check_single(data, lang, timeout=timeout)
+        ds, info = _guarded(col, check_single, data, lang, timeout=timeout)
         case = single_case(lang, data)
         case["corpus_file"] = rel
         _record(col, ds, info, case, kind="corpus:")
         col.label("corpus:%s" % lang)
-        if len(col.samples) < 1 and part == 0 and lang == "java" and info["outcome"] == "rows":
+        if want_sample and len(col.samples) < 1 and info["outcome"] == "rows" and i >= 10:
             col.sample({"kind": "corpus", "lang": lang, "file": rel, "outcome": info["outcome"], "rows": info["rows"]})
     return col
 
 
 def gen_shard(arg):
-    lang, seed, n, tier = arg
+    lang, seed, n, tier = arg[:4]
+    want_sample = len(arg) > 4 and arg[4]
     hypothesis, settings, st, HealthCheck = _hyp()
     col = Collector()
     avoid = active_stepovers()
@@ -569,7 +616,7 @@ def gen_shard(arg):
         draw, rst = _uniform(data, st)
         text, top_markers, labels = G.generate_program(lang, draw, rst, avoid=avoid)
         raw = text.encode("utf-8")
-        ds, info = check_single(raw, lang, top_markers=top_markers, timeout=timeout)
+        ds, info = _guarded(col, check_single, raw, lang, top_markers=top_markers, timeout=timeout)
         case = single_case(lang, raw, top_markers)
         _record(col, ds, info, case, nontrivial_key=common.jhash([lang, text]), kind="generated:")
         col.label("generated:%s" % lang)
@@ -579,7 +626,7 @@ def gen_shard(arg):
             col.label("generated:source_order_compared")
         for a in avoid:
             col.stepovers[a] += 1
-        if len(col.samples) < 1 and lang in ("php", "go") and col.evaluations >= 25 and 200 < len(text) < 900:
+        if want_sample and len(col.samples) < 1 and col.evaluations >= 25 and 200 < len(text) < 900:
             col.sample({"kind": "generated", "lang": lang, "text": text, "top_markers": top_markers, "outcome": info["outcome"], "rows": info["rows"]})
 
     prop()
@@ -600,7 +647,8 @@ def _strip_leading_line_comments(data):
 
 
 def mut_shard(arg):
-    lang, seed, n, tier = arg
+    lang, seed, n, tier = arg[:4]
+    want_sample = len(arg) > 4 and arg[4]
     hypothesis, settings, hst, HealthCheck = _hyp()
     col = Collector()
     avoid = active_stepovers()
@@ -643,12 +691,12 @@ def mut_shard(arg):
             other = draw(st.sampled_from(small or bases)) if op == "splice" else None
             cur = G.mutate_once(cur, lang, draw, st, op, other)
             col.label("op:%s" % op)
-        ds, info = check_single(cur, lang, timeout=timeout)
+        ds, info = _guarded(col, check_single, cur, lang, timeout=timeout)
         case = single_case(lang, cur)
         key = common.jhash([lang, cur.decode("utf-8", "replace")])
         _record(col, ds, info, case, nontrivial_key=None if key in corpus_hashes else key, kind="mutant:")
         col.label("mutant:%s" % lang)
-        if len(col.samples) < 1 and lang in ("typescript", "c") and col.evaluations >= 25 and info["outcome"] == "rows" and 80 < len(cur) < 500:
+        if want_sample and len(col.samples) < 1 and col.evaluations >= 25 and info["outcome"] == "rows" and 80 < len(cur) < 500:
             col.sample({"kind": "mutant", "lang": lang, "ops": applied, "text": cur.decode("utf-8", "replace"), "outcome": info["outcome"], "rows": info["rows"]})
 
     prop()
@@ -679,7 +727,8 @@ def _draw_units(draw, st, corp, avoid, light_ops):
 
 
 def multi_shard(arg):
-    kind, seed, n, tier = arg
+    kind, seed, n, tier = arg[:4]
+    want_sample = len(arg) > 4 and arg[4]
     hypothesis, settings, st, HealthCheck = _hyp()
     col = Collector()
     avoid = active_stepovers()
@@ -695,9 +744,9 @@ def multi_shard(arg):
         units = _draw_units(draw, rst, corp, avoid, light)
         case = multi_case(kind, units)
         if kind == "threaded":
-            ds, info = check_threaded(units, timeout=timeout)
+            ds, info = _guarded(col, check_threaded, units, timeout=timeout)
         else:
-            ds, info = check_project(units, timeout=timeout * 4)
+            ds, info = _guarded(col, check_project, units, timeout=timeout * 4)
         col.case()
         if info.get("harness_error"):
             col.error(info["harness_error"])
@@ -711,7 +760,7 @@ def multi_shard(arg):
             col.discards["timeout"] += 1
         for s, w in ds:
             col.discrepancy(s, w, case)
-        if len(col.samples) < 1 and col.evaluations >= 8 and info.get("units_with_gir", 0) >= 2 and sum(len(d) for _, _, d in units) < 1500:
+        if want_sample and len(col.samples) < 1 and col.evaluations >= 4 and info.get("units_with_gir", 0) >= 2 and sum(len(d) for _, _, d in units) < 1500:
             col.sample({"kind": kind, "units": [{"lang": l, "name": nm, "text": d.decode("utf-8", "replace")} for l, nm, d in units],
                         "units_with_gir": info.get("units_with_gir")})
 
@@ -856,23 +905,25 @@ def main(tier, seed, t0):
     for lang in G.LANGS:
         nparts = max(1, min(ncpu, len(corp[lang]) // 120 + 1))
         for p in range(nparts):
-            args.append((corpus_shard, (lang, p, nparts, tier)))
+            args.append((corpus_shard, (lang, p, nparts, tier, lang == "java" and p == 0)))
     per_lang_shards = max(1, (ncpu * 2) // len(G.LANGS)) if quick else max(2, (ncpu * 6) // len(G.LANGS))
     shard_no = 0
     for lang in G.LANGS:
         for k in range(per_lang_shards):
             shard_no += 1
-            args.append((mut_shard, (lang, common.shard_seed(seed, 1000 + shard_no), n_mut // (len(G.LANGS) * per_lang_shards) + 1, tier)))
+            args.append((mut_shard, (lang, common.shard_seed(seed, 1000 + shard_no), n_mut // (len(G.LANGS) * per_lang_shards) + 1, tier,
+                                     lang == "typescript" and k == 0)))
         gshards = 1 if quick else 4
         for k in range(gshards):
             shard_no += 1
-            args.append((gen_shard, (lang, common.shard_seed(seed, 3000 + shard_no), n_gen // (len(G.LANGS) * gshards) + 1, tier)))
+            args.append((gen_shard, (lang, common.shard_seed(seed, 3000 + shard_no), n_gen // (len(G.LANGS) * gshards) + 1, tier,
+                                     lang == "go" and k == 0)))
     tshards = 4 if quick else ncpu
     for k in range(tshards):
-        args.append((multi_shard, ("threaded", common.shard_seed(seed, 5000 + k), n_thr // tshards + 1, tier)))
+        args.append((multi_shard, ("threaded", common.shard_seed(seed, 5000 + k), n_thr // tshards + 1, tier, k == 0)))
     pshards = 4 if quick else ncpu
     for k in range(pshards):
-        args.append((multi_shard, ("project", common.shard_seed(seed, 6000 + k), n_prj // pshards + 1, tier)))
+        args.append((multi_shard, ("project", common.shard_seed(seed, 6000 + k), n_prj // pshards + 1, tier, k == 0)))
     if not quick and not os.environ.get("C03_NO_ATHERIS"):
         for i, lang in enumerate(G.LANGS):
             args.append((atheris_shard, (lang, common.shard_seed(seed, 7000 + i), 60000, tier)))
